@@ -1,6 +1,8 @@
 import ScriggoV.Model.Cancel
+import ScriggoV.Model.CancelDispatch
 import ScriggoV.Gen.Blocking
-/-! the cancellation facts of run.go as extracted (`Gen/Blocking.lean`), as a `Facts` record -/
+/-! the cancellation facts of run.go as extracted (`Gen/Blocking.lean`), as a `Facts` record, and
+the placement of the flag test in the instruction loop as a `Dispatch` placement -/
 namespace ScriggoV.Cancel
 open ScriggoV.Gen.Blocking
 
@@ -13,5 +15,34 @@ def doneCaseOf (op : String) : Bool :=
 def factsOfCode : Facts :=
   ⟨loopHeadCheck, doneCaseOf "OpReceive", doneCaseOf "OpSend", doneCaseOf "OpSelect",
    doneCaseOf "OpRange", stopSetsDone, epilogueForEveryVM⟩
+
+/-- the class of an opcode, from what its clause in the instruction switch does (extracted
+features): a nested activation of the loop; a change of function together with `nextCall`
+(Return); a change of function (the calls); a `return` out of the activation (Continue, Break);
+an assignment to `vm.pc` (Goto, Select); only `vm.pc++` / `vm.pc += k`; nothing -/
+def flowOf (o : OpFlow) : Dispatch.Flow :=
+  if o.nested then .iterate
+  else if o.setsFn && o.nextCall then .ret
+  else if o.setsFn then .call
+  else if o.leaves then .leave
+  else if o.setsPC then .jump
+  else if o.nextCall then .ret
+  else if o.bumpsPC then .skip
+  else .next
+
+/-- the flag test stands at the head of the instruction loop -/
+def headCheck : Bool := doneCheckSites.contains "loop-head"
+
+/-- the flag is read whenever this opcode is dispatched -/
+def opChecked (o : OpFlow) : Bool := headCheck || o.checksDone
+
+/-- the placement of the code: a class is observed iff every opcode of that class is -/
+def placementOfCode (c : Dispatch.Flow) : Bool :=
+  (opFlow.filter (fun o => flowOf o == c)).all opChecked
+
+/-- the opcodes whose dispatch can go on without a look at the flag although they can move the
+program counter backwards or to another function (none, for the code as it is) -/
+def unobservedBackEdges : List String :=
+  (opFlow.filter (fun o => !(flowOf o).forward && !opChecked o)).map (·.op)
 
 end ScriggoV.Cancel
